@@ -242,14 +242,19 @@ class MetricsContext:
                 )
             )
 
+        # already completed scope (i.e. inherited by a long running task) can't get new nested scopes,
+        # use the nearest still active one instead
+        parent: ScopeMetrics | None = current
+        while parent is not None and parent._completed.done():  # pyright: ignore[reportPrivateUsage]
+            parent = parent._parent  # pyright: ignore[reportPrivateUsage]
+
         # or create nested metrics otherwise
         return cls(
             ScopeMetrics(
                 trace_id=trace_id,
                 scope=name,
                 logger=logger or current._logger,  # pyright: ignore[reportPrivateUsage]
-                # already completed scope (i.e. inherited by a long running task) can't get new nested scopes
-                parent=current if not current._completed.done() else None,  # pyright: ignore[reportPrivateUsage]
+                parent=parent,
                 completion=completion,
             )
         )
